@@ -57,9 +57,15 @@ ChildSeq(n) == IF n = 0 THEN inst.roots ELSE IF n < 0 THEN inst.frames[-n] ELSE 
 
 Prefix(s, k) == IF Len(s) <= k THEN s ELSE SubSeq(s, 1, k)
 
+(* an exception is a collection (what it was raised with: the first half of its children, rounded up) AND an object
+   (the attributes it carries: the rest) - the collection limit applies to the arguments *)
+ExcArgs(n) == SubSeq(ChildSeq(n), 1, (Len(ChildSeq(n)) + 1) \div 2)
+ExcAttrs(n) == SubSeq(ChildSeq(n), (Len(ChildSeq(n)) + 1) \div 2 + 1, Len(ChildSeq(n)))
+
 ChildrenWith(n, d, maxDepth, maxColl) ==
     IF KindOf(n) \in NoChildKinds \cup {"hostile"} THEN <<>>
     ELSE IF d + 1 >= maxDepth THEN <<>>
+    ELSE IF KindOf(n) = "exc" THEN Prefix(ExcArgs(n), maxColl) \o ExcAttrs(n)
     ELSE IF KindOf(n) \in ListLike THEN Prefix(ChildSeq(n), maxColl)
     ELSE ChildSeq(n)
 
@@ -180,7 +186,9 @@ FrameRec == IF done THEN SubSeq(rec, 1, flen) ELSE rec
 (* C05 *)
 CountBound == Len(FrameRec) <= inst.maxVars + 1
 DepthBound == \A i \in 1..Len(FrameRec) : rec[i].d < inst.maxDepth \/ rec[i].d = 0
-CollBound == \A i \in 1..Len(FrameRec) : KindOf(rec[i].n) \in ListLike => Len(kids[i]) <= inst.maxColl
+CollBound == \A i \in 1..Len(FrameRec) :
+    /\ KindOf(rec[i].n) \in ListLike \ {"exc"} => Len(kids[i]) <= inst.maxColl
+    /\ KindOf(rec[i].n) = "exc" => Len(kids[i]) <= inst.maxColl + Len(ExcAttrs(rec[i].n))
 BreadthFirst == \A i, j \in 1..Len(FrameRec) : (i < j /\ rec[i].f = rec[j].f) => rec[i].d <= rec[j].d
 (* the watch processors are bounded as well (by their own budget) *)
 WatchBound == Len(rec) <= (IF inst.maxVars > inst.wlim.maxVars THEN inst.maxVars ELSE inst.wlim.maxVars) + 1
